@@ -87,6 +87,7 @@ type tr struct {
 	mapVal      *mapValBind               // value variable of a map range being rewritten to a key-list range
 	depth       int                       // nesting of on-demand helper translation
 	recvName    string                    // the receiver's name in the source (call-table keys are written with `k`)
+	loopBase    string                    // name under which the loops of an inlined helper are numbered (the calling unit's)
 	inWalk      bool                      // translating the body of a Walk closure (it does not touch the store)
 	indexAlias  map[string]string         // "xs[i]" -> the element variable of the enclosing index loop over xs
 	lenOf       map[string]ast.Expr       // Go variable bound by `n := len(xs)` -> xs
@@ -797,6 +798,27 @@ func (t *tr) unitCall(u *Unit, recv *V, args []ast.Expr, en env) V {
 			k++
 			si++
 		}
+	}
+	if u.StoreOn && !u.EffectsOn {
+		// a store-threaded callee takes the current store and returns the new one as its last component
+		if !t.u.StoreOn {
+			return t.bad("call of store-threaded unit %s from a unit without a store", u.Name)
+		}
+		callS := callL[:len(callL)-1] + " st__)"
+		tmp := t.fresh("call")
+		stProj := tmp + strings.Repeat(".2", len(u.Ret))
+		t.pre = append(t.pre, fmt.Sprintf("let %s := %s\nlet st__ : GStore := %s\n", tmp, callS, stProj))
+		if len(u.Ret) == 0 {
+			return V{"()", "Unit"}
+		}
+		if len(u.Ret) == 1 {
+			return V{tmp + ".1", u.retType()}
+		}
+		var comps []string
+		for i := range u.Ret {
+			comps = append(comps, tmp+strings.Repeat(".2", i)+".1")
+		}
+		return V{"(" + strings.Join(comps, ", ") + ")", u.retType()}
 	}
 	if u.EffectsOn {
 		// the callee returns its own effect list as the last component: splice it into ours
@@ -1828,7 +1850,11 @@ func (t *tr) rangeLoop(s *ast.RangeStmt, en env, next cont) string {
 	loopPre := t.takePre()
 	elT := strings.TrimPrefix(xs.T, "List ")
 	t.nloop++
-	name := fmt.Sprintf("%s.loop%d", t.u.Name, t.nloop)
+	loopBase := t.u.Name
+	if t.loopBase != "" {
+		loopBase = t.loopBase // a helper inlined into another unit: its loops are that unit's loops
+	}
+	name := fmt.Sprintf("%s.loop%d", loopBase, t.nloop)
 
 	state := assignedOuter(s.Body, en, t.u.Alias)
 	if t.u.EffectsOn {
@@ -2349,7 +2375,7 @@ func (t *tr) autoUnit(recvName, fname string, args []ast.Expr, en env) *Unit {
 		return nil
 	}
 	u := &Unit{Group: t.u.Group, Pkg: t.u.Pkg, Recv: recvName, Func: fname, Calls: t.u.Calls, Idents: t.u.Idents,
-		EffectsOn: t.u.EffectsOn, Alias: t.u.Alias, MapKeys: t.u.MapKeys}
+		EffectsOn: t.u.EffectsOn, Alias: t.u.Alias, MapKeys: t.u.MapKeys, StoreOn: t.u.StoreOn, JoinIfs: t.u.JoinIfs, TypeNames: t.u.TypeNames}
 	key := "." + fname
 	if recvName != "" {
 		u.RecvLean = "Keeper"
@@ -2419,8 +2445,12 @@ func (t *tr) autoUnit(recvName, fname string, args []ast.Expr, en env) *Unit {
 		}
 	}
 	u.Name = t.u.Name + "__" + fname
-	sub := &tr{w: t.w, u: u, reg: t.reg, depth: t.depth + 1}
+	sub := &tr{w: t.w, u: u, reg: t.reg, depth: t.depth + 1, nloop: t.nloop, loopBase: t.u.Name}
+	if t.loopBase != "" {
+		sub.loopBase = t.loopBase
+	}
 	text := sub.translate(fd)
+	t.nloop = sub.nloop
 	if sub.fail != "" {
 		return nil
 	}
@@ -2561,9 +2591,16 @@ func (t *tr) translate(fd funcDecl) (out string) {
 	}
 	// named results are zero-initialised variables
 	if fn.Type.Results != nil {
+		ri := 0
 		for _, f := range fn.Type.Results.List {
 			for _, n := range f.Names {
 				ty, ok := t.u.NamedTypes[n.Name]
+				if !ok && ri < len(t.u.Ret) {
+					// results named in the source but not in the unit table: typed by position
+					ty, ok = t.u.Ret[ri], true
+					t.u.Named = append(t.u.Named, n.Name)
+				}
+				ri++
 				if !ok {
 					t.failf("named result %s has no type in the unit table", n.Name)
 					continue
@@ -2633,10 +2670,11 @@ var groupDeps = map[string][]string{
 	"Export":   {"Pure"},
 	"Getters":  {"Pure"},
 	"Queries":  {"Pure"},
+	"Fees":     {"Pure"},
 	"Server":   {"Pure", "Msgs", "Bids", "Auctions"},
 }
 
-var groupOrder = []string{"Pure", "Msgs", "Bids", "Auctions", "Settle", "Match", "Payout", "Server", "Genesis", "Import", "Export", "Getters", "Queries"}
+var groupOrder = []string{"Pure", "Msgs", "Bids", "Auctions", "Settle", "Match", "Payout", "Server", "Genesis", "Import", "Export", "Getters", "Queries", "Fees"}
 
 // translateUnits renders Generated/Code/<Group>.lean, one file per group of units.
 func (w *World) translateUnits() map[string]string {
@@ -2753,8 +2791,10 @@ func (t *tr) pureClosure(fl *ast.FuncLit, elT LT, rets []LT, en env, tag string)
 	for _, r := range rets {
 		rt = append(rt, leanTypeAtom(r))
 	}
-	t.aux = append(t.aux, fmt.Sprintf("def %s %s : (%s) :=\n%s\n", name, strings.Join(params, " "), strings.Join(rt, " × "), indent(bodyL)))
-	return fmt.Sprintf("(fun v__ => %s %s v__)", name, strings.Join(callArgs, " ")), true
+	// the closure is written IN PLACE, as a lambda over the record (its captured variables are in
+	// scope): a tie proof then talks about what the predicate does, not about a numbered name
+	_, _, _ = name, params, callArgs
+	return fmt.Sprintf("(fun (%s : %s) => ((\n%s) : (%s)))", valName, leanType(elT), indent(indent(bodyL)), strings.Join(rt, " × ")), true
 }
 
 // paginate: `query.CollectionPaginate(ctx, coll, pageReq, transform, opts…)` and
